@@ -31,7 +31,7 @@ def shards(tier):
 
 def gates(c, tier):
     need = ["call:partial-pending-completes>=2-leaves-tail", "call:empty-residue", "cut:inside-header", "chunk:empty", "role:client", "role:server",
-            "chunk:bytearray-overwritten", "chunk:memoryview", "chunk:memoryview-slice-of-larger-buffer", "chunk:memoryview-of-signed-or-char-items", "caller-edits-returned-messages", "part:stream-with-refused-message", "partition:single-exhaustive", "partition:pairs-exhaustive", "partition:bytewise",
+            "chunk:bytearray-overwritten", "chunk:memoryview", "chunk:memoryview-slice-of-larger-buffer", "chunk:memoryview-of-signed-or-char-items", "caller-edits-returned-messages", "part:stream-with-refused-message", "failed-session-before-case", "partition:single-exhaustive", "partition:pairs-exhaustive", "partition:bytewise",
             "probe:compared", "big-entry", "stream:alternative-length-forms", "bystander-session-checked"]
     return [f"never observed {k}" for k in need if c.get(k, 0) == 0]
 
@@ -201,6 +201,16 @@ def run_case(sc, stream: bytes, cuts, chunk_modes_seed, baseline=None):
     r = rng_for("c02modes", chunk_modes_seed)
     out = []
     obs = {}
+    if len(cuts) % 2:
+        # another connection of this process fails first (malformed input, refused message): nothing of it may linger
+        for junk_role, junk in ((sl.LDAPServer, b"\x30\x06\x02\x01\x01\x63\x01\x00"), (sl.LDAPClient, b"\x30\x84\x00\x00\x00\x05\x02\x01\x07\x65\x00"),
+                                (sl.LDAPServer, stream[: max(1, len(stream) // 2)] + b"\xff\xff")):
+            try:
+                junk_role().receive(junk)
+            except sl.ProtocolError:
+                obs["failed-session-before-case"] = 1
+            except Exception:
+                pass
     expect = list(sc["msgs"])
     sess = mk_session(sc)
     # bystander: another connection of the same process holds half a message during the whole run
